@@ -236,3 +236,52 @@ package fsm
 //@   ensures[sender] result1 == nil ==> !isnil(result0) && addrOf(result0) == keyAddr(bytes(tx.Signature.PublicKey))
 //@   ensures[authorized] result1 == nil ==> exists i int :: 0 <= i && i < len(authorizedSigners) && bytes(authorizedSigners[i]) == addrOf(result0)
 //@   ensures[verified] result1 == nil ==> sigVerifies(bytes(tx.Signature.PublicKey), txSignBytes(tx), bytes(tx.Signature.Signature)) || batchQueued(batchSigVerifier, bytes(tx.Signature.PublicKey), txSignBytes(tx), bytes(tx.Signature.Signature)) || hashOf(pbBytes(tx)) == hashOf(pbBytes(rlpDecode(bytes(tx.Signature.Signature), tx.Memo == RLPV2Indicator)))
+
+// ---- C12: staking bookkeeping ---------------------------------------------------------------------------------
+// Abstract key/value view of the working store (ghost kvHas: which keys are present), seen through the
+// FSM's Set/Delete wrappers (assumed; store semantics are decided separately under C10), and the key
+// constructors as abstract injective functions of their components (injectivity is C19's subject).
+//@ ghost kvHas(k BSeq) bool
+//@ spec func unstakeKey(height int, addr BSeq) BSeq
+//@ spec func pausedKey(height int, addr BSeq) BSeq
+//@ func (*StateMachine).Set
+//@   trusted
+//@   modifies ghost(kvHas)
+//@   ensures isnil(err) ==> kvHas() == old(store(kvHas(), bytes(k), true))
+//@   ensures !isnil(err) ==> kvHas() == old(kvHas())
+//@ func (*StateMachine).Delete
+//@   trusted
+//@   modifies ghost(kvHas)
+//@   ensures isnil(result) ==> kvHas() == old(store(kvHas(), bytes(key), false))
+//@   ensures !isnil(result) ==> kvHas() == old(kvHas())
+//@ func KeyForUnstaking
+//@   trusted
+//@   pure
+//@   ensures bytes(result) == unstakeKey(height, addrOf(address))
+//@ func KeyForPaused
+//@   trusted
+//@   pure
+//@   ensures bytes(result) == pausedKey(maxPausedHeight, addrOf(address))
+
+// a validator that is already unstaking is never scheduled again (a second marker would outlive the
+// record): every caller must establish this
+//@ func (*StateMachine).SetValidatorUnstaking
+//@   requires[notyet] validator.UnstakingHeight == 0
+//@ func (*StateMachine).SetValidatorUnstakingIfBelowMinimum
+//@   ensures[skip] old(validator.UnstakingHeight) != 0 ==> !result0 && result1 == nil
+
+// deleting a validator record also removes its unstaking / paused markers, so no marker ever refers to
+// a validator that no longer exists (end-block processing of such a marker would fail every block)
+//@ func (*StateMachine).DeleteValidator
+//@   ensures[unstakemarker] result == nil && validator.UnstakingHeight != 0 ==> !kvHas(unstakeKey(validator.UnstakingHeight, bytes(validator.Address)))
+//@   ensures[pausedmarker] result == nil && validator.MaxPausedHeight != 0 ==> !kvHas(pausedKey(validator.MaxPausedHeight, bytes(validator.Address)))
+// committee / delegation index maintenance touches committee, delegate and supply-pool keys only
+// (assumed frame: these go through parameter reads and the store interface)
+//@ func (*StateMachine).DeleteCommittees
+//@   trusted
+//@   modifies ghost(kvHas)
+//@   ensures forall h int, a BSeq :: kvHas(unstakeKey(h, a)) == old(kvHas(unstakeKey(h, a))) && kvHas(pausedKey(h, a)) == old(kvHas(pausedKey(h, a)))
+//@ func (*StateMachine).DeleteDelegations
+//@   trusted
+//@   modifies ghost(kvHas)
+//@   ensures forall h int, a BSeq :: kvHas(unstakeKey(h, a)) == old(kvHas(unstakeKey(h, a))) && kvHas(pausedKey(h, a)) == old(kvHas(pausedKey(h, a)))
